@@ -34,6 +34,22 @@ STRENGTHENED = {
     "C19-F": "session 3: '.*' precision on %s and %c (argument consumption)",
     "C20-E": "session 3: malformed tails of \\u escapes and lenient number spellings in mutated documents",
     "C20-F": "session 3: std.parseYaml vs std.parseJson compared with the sign of zero",
+    "C01-E": "caught by C09 (objlocal-in-compkey fault); C01's own generators do not produce closed programs with this shape",
+    "C02-E": "caught by C06 (literals at and next to rounding midpoints, 16-19 significant digits); C02 keeps literals short by construction",
+    "C04-E": "session 3: arguments that a callback ignores (initial value and elements of a fold, constant key functions, key-only mappings)",
+    "C05-E": "session 3: keys drawn from the grammar of the YAML 1.1 implicit resolvers; the bare-key scanner skipped keys starting with '-' (oracle hole, fixed)",
+    "C06-F": "session 3: digit strings whose value crosses the largest double at the last digits (also caught by C20 parse_radix at first exposure)",
+    "C07-E": "session 3: operands used (manifested) on their own before they are combined",
+    "C07-F": "session 3: library-made layers built from arguments with hidden / forced-visible / inherited visibilities",
+    "C08-E": "session 3: operands that share their element thunks (same variable, common prefix, slices), untouched or already evaluated",
+    "C10-E": "session 3: the largest limits the option accepts (2^31 .. 2^64-1)",
+    "C10-F": "(caught at first exposure by the plus_chain shape added earlier in session 3, before this change was written)",
+    "C11-F": "session 3: requests that die inside an assertion (condition / message fails, overflows, nested object's assertion fails)",
+    "C12-E": "session 3: the same command run once more over its own results",
+    "C13-E": "session 3 (written after reading the agent's report, before the first run; the old check had no file above 24 bytes): content at 4 KiB..256 KiB buffer boundaries",
+    "C13-F": "session 3 (written after reading the agent's report, before the first run; the old check had no importer without a directory): -e / stdin / ext-code / tla-code importers",
+    "C03-E": "(caught at first exposure by hook H4 - a handle traced twice - added earlier in session 3)",
+    "C03-F": "(caught at first exposure by the per-edge garbage cycles of steady_state added earlier in session 3)",
 }
 rows = []
 for d in sorted(glob.glob(os.path.join(ROOT, "seeded", "C*-[A-Z]"))):
